@@ -153,6 +153,13 @@ def gen_inputs(rng, node, depth=0, dsec=None):
         for s in settings_for:
             if not isinstance(doc.get(s), dict) or not doc.get(s):
                 doc[s] = {node["subs"][s]["opts"][0][0]: 3600}
+        if doc.get("subcommand") and rng.random() < 0.25:
+            # an empty section ("fit:" -> null) for a subcommand other than the one the config names: not settings, and not
+            # to survive. (Only with a choice named in the same document: what a null section means when nothing is chosen,
+            # or against a default config section of the same name, is not something the statement settles.)
+            others = [n for n in names if n not in doc and n != sel and n != doc.get("subcommand") and n not in node["dsec"]]
+            if others:
+                doc[rng.choice(others)] = None
         argv += sub_argv
     return argv, doc, env
 
@@ -303,6 +310,8 @@ def case(ctx, i, rng):
     ctx.evaluation(("c17", maxdepth, channel, rule, short(tree, 400), short(doc_used, 300), tuple(sels)))
     ctx.count("mon.tree_comparisons")
     ctx.count(f"st.rule.{rule}")
+    if _has_null_section(doc_used):
+        ctx.count("st.null_section_of_other_subcommand")
     if _has_dsec(tree, sels, exp):
         ctx.count("st.default_config_sections_for_subcommands")
     ctx.count(f"st.depth.{maxdepth}")
@@ -326,6 +335,10 @@ def case(ctx, i, rng):
         ctx.violation("subcommands", f"{kind}/{rule}/{chan_family(channel)}", dict(w, at=at, why=why, expected=exp, got=got))
     if i < 3:
         ctx.sample(dict(w, result=got))
+
+
+def _has_null_section(doc):
+    return isinstance(doc, dict) and any(v is None or _has_null_section(v) for v in doc.values())
 
 
 def _has_dsec(node, sels, exp):
